@@ -34,9 +34,71 @@ class Machinery(Exception):
     """The machinery could not vouch (exit 2)."""
 
 
+def normalize_tuples(out):
+    """TLC pretty-prints long values over several lines (`<< "REJECT",\n   12,\n   "x" >>`).
+    Rewrite every wrapped tuple into the single-line form `<<"REJECT", 12, "x">>` that short
+    values are printed in, so that the drivers' line-oriented parsing never silently drops one."""
+    if "<< " not in out and "<<\n" not in out:
+        return out
+    res = []
+    i = 0
+    n = len(out)
+    for m in re.finditer(r"<<\s", out):
+        st = m.start()
+        if st < i:
+            continue  # nested inside a tuple already rewritten
+        # scan to the matching >>
+        j = st + 2
+        depth = 1
+        in_str = False
+        buf = ["<<"]
+        pending_space = False
+        while j < n and depth > 0:
+            c = out[j]
+            if in_str:
+                buf.append(c)
+                if c == "\\" and j + 1 < n:
+                    buf.append(out[j + 1])
+                    j += 1
+                elif c == '"':
+                    in_str = False
+            elif c == '"':
+                if pending_space and buf[-1] not in ("<<", "[", "(", "{"):
+                    buf.append(" ")
+                pending_space = False
+                in_str = True
+                buf.append(c)
+            elif c in " \t\r\n":
+                pending_space = True
+            else:
+                if out.startswith("<<", j):
+                    tok = "<<"
+                    depth += 1
+                elif out.startswith(">>", j):
+                    tok = ">>"
+                    depth -= 1
+                else:
+                    tok = c
+                if pending_space and tok not in (">>", "]", ")", "}", ",") and buf[-1] not in ("<<", "[", "(", "{"):
+                    buf.append(" ")
+                pending_space = False
+                buf.append(tok)
+                j += len(tok) - 1
+            j += 1
+        if depth != 0:
+            continue  # unbalanced: leave the text alone
+        res.append(out[i:st])
+        res.append("".join(buf))
+        i = j
+    res.append(out[i:])
+    return "".join(res)
+
+
 class TLCResult:
     def __init__(self, rc, out, wall):
         self.rc = rc
+        self.raw_out = out
+        out = normalize_tuples(out)
         self.out = out
         self.wall = wall
         self.generated = 0
